@@ -26,6 +26,8 @@ RULE = (
     "str, bool, list, tuple, dict, set, Path, np.float64, Leaf (an AutoSerialize class with a subclass), NoneType, np.generic, np.complexfloating, np.datetime64, "
     "np.number}; every object also carries a complex / datetime64 / timedelta64 / bytes_ NumPy scalar (stored as a flagged 0-d array) and array-ish type lists "
     "([ndarray], [ndarray, Tensor], [generic], ...) run on every family; both stores alternate. "
+    "root nn.Module+AutoSerialize objects (both MRO orders) x 9 fixed + seeded name sets over {2 sub-modules, 2 parameters, 2 buffers, 6 plain attributes incl. a nested "
+    "object} x type lists x both stores; Ptychography.save skip forms and shared skip lists. "
     "non-trivial = S or T removes >=1 attribute at object depth >=2 and >=1 attribute survives; distinct = (graph signature, S, T)"
 )
 ASSUMPTIONS = [
@@ -34,10 +36,16 @@ ASSUMPTIONS = [
     "type skipping is judged at save time only (isinstance semantics on the in-memory value); load-time skipping is judged for names",
     "expected value = in-memory pruning of the no-skip round trip, so the C01 relaxations cancel; comparison is deq 'loaded' (strict, rng/logger by kind)",
     "attribute names are free of '/' and of the serializer's reserved metadata names (as in C01)",
+    "root objects that are nn.Module and AutoSerialize (both MRO orders): a skipped name may address a sub-module, parameter, buffer (persistent or not) or plain attribute; the "
+    "loaded object is judged with hasattr, state_dict keys, named_children and named_buffers/parameters against the pruned no-skip round trip (classifier nested_kind=root_hybrid, "
+    "never matched by the known finding about hybrids *nested below* the root)",
+    "for such roots, type lists only contain types that no nn.Module-internal attribute is an instance of: save(skip=[dict]) or [bool] removes nn.Module's own _parameters / training "
+    "entries and skip=[torch.Tensor] does not reach registered parameters / buffers (they sit in nn.Module's dicts) - observed on the unchanged tree, reported, not judged",
 ]
 BUDGET = {"quick": {"soft_s": 150}, "thorough": {"soft_s": 900}}
 MIN_EVALUATIONS = {"quick": 150, "thorough": 2000}
-REQUIRED_COUNTERS = ["eval:save_time_skip", "eval:load_time_skip", "eval:save_and_load_skip", "eval:ptycho_skip_forms_differ", "eval:ptycho_skipped_name_present"]
+REQUIRED_COUNTERS = ["eval:save_time_skip", "eval:load_time_skip", "eval:save_and_load_skip", "eval:ptycho_skip_forms_differ", "eval:ptycho_skipped_name_present",
+                     "eval:root_hybrid_skip", "eval:root_hybrid_state_dict", "eval:root_hybrid_named_modules"]
 EXHAUSTIVE = {"quick": False, "thorough": False}
 
 POOL = ["a", "b", "c", "d", "e", "f", "g", "h"]
@@ -50,6 +58,12 @@ ARRAYISH_TYPE_LISTS = [["ndarray"], ["ndarray", "Tensor"], ["generic"], ["comple
 N_FAMILIES = {"quick": 12, "thorough": 10}
 
 
+ROOT_NET_SKIPS = [["head"], ["scale", "note"], ["running_mean", "scratch", "history", "absent_name"], ["encoder", "frozen", "child", "meta", "stamp", "plain_t"],
+                  ["note", "history"], ["encoder"], ["scale", "frozen", "running_mean"], [],
+                  ["encoder", "head", "scale", "frozen", "running_mean", "scratch", "note", "history", "meta", "stamp", "plain_t", "child"]]
+ROOT_NET_MEMBER_NAMES = ["encoder", "head", "scale", "frozen", "running_mean", "scratch", "note", "history", "meta", "stamp", "plain_t", "child"]
+# type lists for nn.Module-based roots: only types that no nn.Module-internal attribute (dicts, sets, bools, None, registered tensors) is an instance of
+ROOT_NET_TYPES = [[], [], ["str"], ["ndarray", "float64"], ["Leaf"], ["generic"], ["Path", "complexfloating"]]
 PTYCHO_ITEMS = ["_snapshots", "_obj_fov_mask", "_rng", "_iter_losses", "_propagators", "type:Tensor", "type:ndarray", "nested:_initial_probe"]
 
 
@@ -58,6 +72,21 @@ def plan(tier, seed):
 
     rng = np.random.default_rng([seed, 14, 4242])
     specs = []
+    # root objects that are nn.Module *and* AutoSerialize (both MRO orders): skip names addressing sub-modules, parameters, buffers, plain attributes
+    rh = 0
+    for cls in ("RootNetModuleFirst", "RootNetSerializeFirst"):
+        for store in ("zip", "dir"):
+            sets = list(ROOT_NET_SKIPS)
+            for _ in range(3 if tier == "quick" else 24):
+                k = int(rng.integers(1, 7))
+                sets.append([ROOT_NET_MEMBER_NAMES[int(i)] for i in sorted(rng.permutation(len(ROOT_NET_MEMBER_NAMES))[:k])])
+            for S in sets:
+                rh += 1
+                S2 = None
+                if rh % 3 == 1:
+                    S2 = [ROOT_NET_MEMBER_NAMES[int(i)] for i in sorted(rng.permutation(len(ROOT_NET_MEMBER_NAMES))[: int(rng.integers(0, 4))])]
+                specs.append({"kind": "root_hybrid", "cls": cls, "store": store, "S": S, "T": ROOT_NET_TYPES[rh % len(ROOT_NET_TYPES)], "S2": S2, "scalar_skip": len(S) == 1 and rh % 2 == 0,
+                              "variant": rh % 5, "_must_run": tier == "quick"})
     # the library's own user of skip lists: Ptychography.save(skip=...) given as bare str / list / tuple / bare type
     for store in ("zip", "dir"):
         for raw in (False, True):
@@ -455,7 +484,106 @@ def _run_ptycho_shared(spec, idx, ctx):
     ctx.observe(kind="ptycho_shared", store=store, item=item)
 
 
+def _run_root_hybrid(spec, idx, ctx):
+    """skip lists on a root object that is an nn.Module: judged with hasattr / state_dict / named_children / named_buffers against
+    the in-memory pruning of the no-skip round trip."""
+    import numpy as np
+    import torch
+
+    sg, load, dq = ctx.state["sg"], ctx.state["load"], ctx.state["deq"]
+    tmap = ctx.state["types"]
+    members = sg.ROOT_NET_MEMBERS
+    store, S, Tn = spec["store"], list(spec["S"]), list(spec["T"])
+    T = tuple(tmap[t] for t in Tn)
+    S2 = S if spec.get("S2") is None else list(spec["S2"])
+    torch.manual_seed(1000 + int(spec["variant"]) + int(ctx.seed))
+    m = getattr(sg, spec["cls"])(np.random.default_rng([int(ctx.seed), 14, 77, int(spec["variant"])]))
+    base = os.path.join(ctx.tmp, "c14", "case%d" % idx)
+    shutil.rmtree(base, ignore_errors=True)
+    os.makedirs(base)
+    ext = ".zip" if store == "zip" else ""
+    p_plain, p_skip = os.path.join(base, "plain" + ext), os.path.join(base, "skip" + ext)
+    f0 = {"store": store, "cls": spec["cls"], "types": "+".join(Tn), "nested_kind": "root_hybrid"}
+
+    def describe(o):
+        return {n: getattr(o, n) for n in members if hasattr(o, n)}
+
+    def by_type(n):
+        return members[n] == "plain" and bool(T) and isinstance(getattr(m, n), T)
+
+    def judge(got, names, types_on, when):
+        f = dict(f0, when=when)
+        desc = describe(got)
+        ok = True
+        for n in sorted(names):
+            if n in members or hasattr(m, n):
+                kind = members.get(n, "plain")
+                c = ctx.check(not hasattr(got, n), "root_hybrid_skip", "%s-time skip=%s on a %s root: %s %r is still present on the loaded object" % (when, sorted(names), spec["cls"], kind, n),
+                              event="skipped_name_present", member_kind=kind, **f)
+                ok = ok and c
+        removed_by_type = [n for n in members if types_on and n not in names and by_type(n)]
+        for n in removed_by_type:
+            ctx.check(n not in desc, "root_hybrid_skip", "skip types %s: plain attribute %r (%s) is still present" % (Tn, n, type(getattr(m, n)).__name__), event="skipped_attribute_present", member_kind="plain", **f)
+        rem = []
+        expected = {n: v for n, v in describe(r0).items() if n not in names and n not in removed_by_type}
+        if "child" in expected:
+            expected["child"] = _prune(r0.child, m.child, set(names), T if types_on else (), dq, rem, 2)
+        for n in expected:
+            if n not in desc:
+                ctx.check(False, "root_hybrid_skip", "%s-time skip=%s: %s %r, which was not skipped, is missing" % (when, sorted(names), members[n], n), event="survivor_missing", member_kind=members[n], **f)
+                continue
+            d = dq.deq(expected[n], desc[n], "loaded")
+            ctx.check(d is None, "root_hybrid_skip", lambda: "%s-time skip=%s: surviving %s %r differs from the no-skip round trip: %s" % (when, sorted(names), members[n], n, d), event="survivor_differs",
+                      member_kind=members[n], **f)
+        # nn.Module's own views of the object
+        try:
+            sd_exp = sorted(k for k in r0.state_dict() if k.split(".")[0] not in names)  # (registration order is not judged)
+            sd_got = sorted(got.state_dict())
+            ctx.check(sd_got == sd_exp, "root_hybrid_state_dict", lambda: "%s-time skip=%s: state_dict keys %s, expected %s" % (when, sorted(names), sd_got, sd_exp), event="state_dict", **f)
+            ch_exp = sorted(n for n, _ in r0.named_children() if n not in names)
+            ch_got = sorted(n for n, _ in got.named_children())
+            ctx.check(ch_got == ch_exp, "root_hybrid_named_modules", lambda: "%s-time skip=%s: named_children %s, expected %s" % (when, sorted(names), ch_got, ch_exp), event="named_children", **f)
+            bf_exp = sorted(n for n, _ in r0.named_buffers(recurse=False) if n not in names)
+            bf_got = sorted(n for n, _ in got.named_buffers(recurse=False))
+            pr_exp = sorted(n for n, _ in r0.named_parameters(recurse=False) if n not in names)
+            pr_got = sorted(n for n, _ in got.named_parameters(recurse=False))
+            ctx.check(bf_got == bf_exp and pr_got == pr_exp, "root_hybrid_named_modules", lambda: "%s-time skip=%s: buffers %s / parameters %s, expected %s / %s" % (when, sorted(names), bf_got, pr_got, bf_exp, pr_exp),
+                      event="named_buffers_parameters", **f)
+        except Exception as e:  # noqa: BLE001
+            ctx.check(False, "root_hybrid_state_dict", "%s-time skip=%s: the loaded module is broken: %r" % (when, sorted(names), e), event="module_unusable", **f)
+        return ok
+
+    skip_arg = S + list(T)
+    if spec.get("scalar_skip") and len(skip_arg) == 1:
+        skip_arg = skip_arg[0]
+    elif idx % 2:
+        skip_arg = tuple(skip_arg)
+    try:
+        m.save(p_plain, store=store)
+        m.save(p_skip, store=store, skip=skip_arg)
+        r0 = load(p_plain)
+        ctx.check(all(hasattr(r0, n) for n in members), "root_hybrid_skip", "the no-skip round trip of a %s root lost %s" % (spec["cls"], [n for n in members if not hasattr(r0, n)]), event="survivor_missing",
+                  member_kind="any", when="never", **f0)
+        got1 = _load(ctx, load, p_skip, (), dict(f0, when="save"))
+        if got1 is not None:
+            judge(got1, set(S), True, "save")
+        got2 = _load(ctx, load, p_plain, S[0] if (spec.get("scalar_skip") and len(S) == 1) else list(S), dict(f0, when="load"))
+        if got2 is not None:
+            judge(got2, set(S), False, "load")
+        got3 = _load(ctx, load, p_skip, list(S2), dict(f0, when="both"))
+        if got3 is not None:
+            judge(got3, set(S) | set(S2), True, "both")
+    finally:
+        shutil.rmtree(base, ignore_errors=True)
+    kinds_hit = sorted(set(members[n] for n in S if n in members))
+    ctx.count("root_hybrid_cases")
+    ctx.nontrivial("root_hybrid|%s|%s|%s|%s|%s" % (spec["cls"], store, ",".join(S), ",".join(Tn), ",".join(S2)), len(kinds_hit) >= 1 and len(S) < len(members))
+    ctx.observe(kind="root_hybrid", cls=spec["cls"], store=store, S=S, T=Tn, S2=S2, member_kinds_skipped=kinds_hit)
+
+
 def run_case(spec, idx, ctx):
+    if spec.get("kind") == "root_hybrid":
+        return _run_root_hybrid(spec, idx, ctx)
     if spec.get("kind") == "ptycho":
         return _run_ptycho(spec, idx, ctx)
     if spec.get("kind") == "ptycho_shared":
